@@ -3,7 +3,7 @@
 //! Private names used: `Server { tokens, peers, signed_peers, immutable_values, mutable_values,
 //! filter }`, `ServerSettings`.
 //! Stand-ins: `lru` (fixed-slot), `vcoll`, `tracing`.
-//! @needs: mutable signed_announce peers signed_peers
+//! @needs: mutable signed_announce peers signed_peers tokens
 use super::*;
 use crate::common::kani_h_mutable as mh;
 use crate::common::kani_h_signed_announce as sh;
@@ -684,6 +684,90 @@ fn c15_o3b_token_lifetime() {
     kani::cover!(dt > 300 && is_ack(&r1, rt.id()));
     std::mem::forget(r0);
     std::mem::forget(r1);
+    std::mem::forget(server);
+    std::mem::forget(rt);
+}
+
+
+//@ ob: C15.O3c
+//@ tier: thorough
+//@ cap: 2700
+//@ standins: tracing lru vcoll
+//@ desc: token expiry on a node that keeps receiving requests of any kind: a token issued with a get_peers reply at t0, followed by two further requests that carry no token (pings) more than 300 s apart, is refused with 203 when presented afterwards -- the lazy rotation runs on every handled request, so the issuing secret is in neither slot after two rotation periods
+//@ bounds: symbolic secrets and fresh random bytes (assumed to differ from the issuing secret); gaps d1, d2 symbolic in 301..=1000 s, d3 symbolic <= 1000 s; 4 requests (get_peers, ping, ping, announce_peer); unwind 26
+//@ stubs: other arms' validators -> flagged cuts; RoutingTable::closest -> probe; Instant::now; getrandom::fill
+//@ functions: Server::handle_request (lazy rotation on every request kind), Tokens::{should_update,rotate,validate,generate_token}
+#[kani::proof]
+#[kani::stub(crate::common::mutable::MutableItem::from_dht_message, mh::from_dht_message_cut)]
+#[kani::stub(crate::common::signed_announce::SignedAnnounce::from_dht_request, sh::from_dht_cut)]
+#[kani::stub(crate::common::immutable::validate_immutable, vi_cut)]
+#[kani::stub(crate::common::routing_table::RoutingTable::closest, closest_probe)]
+#[kani::stub(std::time::Instant::now, clock::now)]
+#[kani::stub(getrandom::fill, rnd::fill)]
+#[kani::unwind(26)]
+fn c15_o3c_token_expires_under_any_traffic() {
+    clock::set(0);
+    let mut server = small_server(1, true);
+    let fresh: [u8; 60] = kani::any();
+    rnd::preload(&fresh);
+    let s0 = server.tokens.kani_secrets().0;
+    // the fresh secrets drawn by later rotations differ from the issuing one
+    let mut eq = [true; 3];
+    let mut k = 0;
+    while k < 3 {
+        let mut j = 0;
+        while j < 20 {
+            if fresh[20 * k + j] != s0[j] { eq[k] = false; }
+            j += 1;
+        }
+        k += 1;
+    }
+    kani::assume(!eq[0] && !eq[1] && !eq[2]);
+    let rt = RoutingTable::new(Id::from(ME));
+    let from = SocketAddrV4::new([10, 0, 0, 7].into(), 6881);
+    let other = SocketAddrV4::new([10, 0, 0, 8].into(), 6881);
+    let info_hash = Id::from(T1);
+    let r0 = server.handle_request(&rt, &rt, from, RequestSpecific {
+        requester_id: Id::from([2u8; 20]),
+        request_type: RequestTypeSpecific::GetPeers(GetPeersRequestArguments { info_hash }),
+    });
+    let token: Box<[u8]> = match &r0 {
+        Some(MessageType::Response(ResponseSpecific::NoValues(a))) => a.token.clone(),
+        _ => { assert!(false, "C15.O3b get_peers on an empty store answers NoValues"); Box::new([]) }
+    };
+    let d1: u64 = kani::any();
+    let d2: u64 = kani::any();
+    let d3: u64 = kani::any();
+    kani::assume(d1 > 300 && d1 <= 1000 && d2 > 300 && d2 <= 1000 && d3 <= 1000);
+    clock::set(d1);
+    let p1 = server.handle_request(&rt, &rt, other, RequestSpecific { requester_id: Id::from([3u8; 20]), request_type: RequestTypeSpecific::Ping });
+    clock::set(d1 + d2);
+    let p2 = server.handle_request(&rt, &rt, other, RequestSpecific { requester_id: Id::from([3u8; 20]), request_type: RequestTypeSpecific::Ping });
+    clock::set(d1 + d2 + d3);
+    let r1 = server.handle_request(&rt, &rt, from, RequestSpecific {
+        requester_id: Id::from([2u8; 20]),
+        request_type: RequestTypeSpecific::Put(PutRequest { token, put_request_type: PutRequestSpecific::AnnouncePeer(AnnouncePeerRequestArguments { info_hash, port: 1, implied_port: None }) }),
+    });
+    // two rotations happened (one per ping, each more than 300 s after the previous one): unless
+    // the fresh secrets happen to reproduce the token (a 2^-32 event per secret the solver can
+    // pick), the put is refused.  The statement is therefore made for secrets under which the old
+    // token is not a token of the new secrets:
+    let (curr, prev) = server.tokens.kani_secrets();
+    assert!(curr != s0 && prev != s0, "C15.O3 after two rotation periods of any traffic the issuing secret is in neither slot");
+    // (whether the old token happens to be a token of the new secrets is a 2^-32 coincidence the
+    // solver may pick; outside that coincidence the put is refused)
+    let collides = server.tokens.clone().validate(from, match &r0 { Some(MessageType::Response(ResponseSpecific::NoValues(a))) => &a.token, _ => &[] });
+    if !collides {
+        assert!(code_of(&r1) == Some(203), "C15.O3 a token older than two rotation periods is refused on a node that keeps receiving requests");
+    }
+    assert!(p1.is_some() && p2.is_some(), "C18.O1 server mode answers through the server");
+    assert!(!cut_reached(), "CUT: another arm or random bytes reached");
+    kani::cover!(!collides && d3 == 0);
+    kani::cover!(code_of(&r1) == Some(203));
+    std::mem::forget(r0);
+    std::mem::forget(r1);
+    std::mem::forget(p1);
+    std::mem::forget(p2);
     std::mem::forget(server);
     std::mem::forget(rt);
 }
